@@ -35,6 +35,7 @@ type Verifier struct {
 	axiomErrs   []string
 	GlobalsUsed map[string]bool
 	autoOff     map[string]bool
+	SweepSet    map[string]bool
 }
 
 func newVerifier(P *Program, C *Contracts) *Verifier {
@@ -60,6 +61,7 @@ type Obligation struct {
 	Known    bool // listed in known_findings
 	Cover    bool // cover query: expected SAT
 	Src      string
+	Replayed bool // the model was confirmed against the real code
 }
 
 type state struct {
